@@ -22,6 +22,16 @@ from vt.scan import c01_gen as G
 
 U = ('U',)
 
+# Strictness switches.  True = hold the implementation to the letter of the property statement ("an
+# annotation that is not valid at its site is reported as a warning and leaves that attribute
+# unchanged"); False = classify that family of cases UNSPECIFIED (still executed, never flagged).
+STRICT_ENUM_IS_NOT_POINTER = True          # nullable / allow-none / transfer on an enumeration *value*
+STRICT_WARN_IN_CALLBACK_AND_SIGNAL = True  # scope / closure / destroy on non-callback parameters of callback
+#                                            typedefs and signals must be reported like in functions
+STRICT_INVALID_CLOSURE_UNCHANGED = True    # a (closure) the scanner itself reports as invalid must not be applied
+STRICT_VFUNC_VIA_INVOKER_NULLABLE = True   # gpointer + (type T) is not nullable also when the annotation reaches a
+#                                            virtual method through its invoker
+
 
 def M(v):
     return ('M', v)
@@ -146,6 +156,8 @@ def validity(name, opts, F, eff_dir, others):
         if F.cat in ('callback', 'dnotify'):
             return 'U'
         if F.cat in ('int', 'enum') and F.depth == 0:
+            if F.cat == 'enum' and not STRICT_ENUM_IS_NOT_POINTER:
+                return 'U'
             return 'U' if 'array' in others else 'I'
         return 'V'
     if name in ('in', 'out', 'inout'):
@@ -156,6 +168,8 @@ def validity(name, opts, F, eff_dir, others):
         if eff_dir == 'U' or type_over:
             return 'U'
         if 'array' in others and not F.pointerish:
+            return 'U'
+        if F.cat == 'enum' and F.depth == 0 and not STRICT_ENUM_IS_NOT_POINTER:
             return 'U'
         return 'V' if F.pointerish else 'I'
     if name == 'optional':
@@ -170,6 +184,8 @@ def validity(name, opts, F, eff_dir, others):
         if eff_dir == 'U' or type_over:
             return 'U'
         if 'array' in others and not F.pointerish:
+            return 'U'
+        if F.cat == 'enum' and F.depth == 0 and not STRICT_ENUM_IS_NOT_POINTER:
             return 'U'
         return 'V' if F.pointerish else 'I'
     if name in ('not', 'skip', 'attributes'):
@@ -237,11 +253,11 @@ def validity(name, opts, F, eff_dir, others):
             # scope / destroy inside a callback typedef
             if F.cat in ('callback', 'dnotify', 'unresolved'):
                 return 'U'
-            return 'I'
+            return 'I' if STRICT_WARN_IN_CALLBACK_AND_SIGNAL else 'U'
         if F.callable == 'signal':
             if F.cat in ('callback', 'dnotify', 'unresolved'):
                 return 'U'
-            return 'I'
+            return 'I' if STRICT_WARN_IN_CALLBACK_AND_SIGNAL else 'U'
     return 'U'
 
 
@@ -306,7 +322,7 @@ def elem_name(t):
     return TYPE_NAMES.get(t)
 
 
-def predict(case, B, index_of):
+def predict(case, B, index_of, label=None):
     """B: {'attrs': {...}, 'type': dumped type element, 'attributes': [(k, v)...]} of the baseline site.
     index_of(name) -> position of the parameter in the emitted <parameter> list of this callable
     (None if it is not there, e.g. the instance parameter)."""
@@ -669,6 +685,14 @@ def predict(case, B, index_of):
         e.warn_pos[text_of['type']] = False
     if 'not nullable' in byname and ('nullable' in byname or 'allow-none' in byname):
         pass
+    if not STRICT_INVALID_CLOSURE_UNCHANGED and 'closure' in byname and val['closure'] == 'I' and \
+            F.part == 'param' and (F.callable == 'callback' or F.cat == 'callback'):
+        for k in ('closure', 'nullable', 'allow-none'):
+            e.attrs[k] = U
+    if not STRICT_VFUNC_VIA_INVOKER_NULLABLE and label in ('vfunc', 'vfunc-field') and \
+            case['callable'] == 'vfunc_inv' and F.cat == 'any':
+        e.attrs['nullable'] = U
+        e.attrs['allow-none'] = U
     base_pat = pat_of_tree(bt)
     e.nontrivial = (any(x == 'M' for x in e.warn.values()) or bool(e.others) or e.fatal == 'M' or
                     (e.type is not U and e.type != base_pat) or
